@@ -184,6 +184,18 @@ def comp_info(imath, clsname):
     return {"names": names, "w": w, "make": make, "first": first, "cenc": cenc, "cdec": cdec, "ccls": ccls}
 
 
+def elem_attr_writable(imath, clsname, ci):
+    """can `e = a[i]; e.<name> = value` be used on this class (vector / colour elements: yes; quaternion `.r` is fine too)"""
+    try:
+        a = getattr(imath, clsname)(1)
+        a[0] = ci["make"](list(range(1, ci["w"] + 1)))
+        e = a[0]
+        setattr(e, ci["names"][ci["w"] - 1], ci["cenc"](9))
+        return ci["cdec"](getattr(a, ci["names"][ci["w"] - 1])[0]) == 9
+    except Exception:
+        return False
+
+
 def array_classes(imath):
     """FixedArray classes by introspection: __getitem__/__len__, name ends in Array, and the generic
     FixedArray protocol (makeReadOnly/writable/ifelse)."""
@@ -371,6 +383,15 @@ class RealExec:
             for i in range(len(cells) // w):
                 a[i] = ci["make"](cells[w * i:w * i + w])
             return self.new(a, ci["first"])
+        if op == "allocfill":
+            return self.new(self.cls(self.enc(int(t[1])), int(t[2])))
+        if op == "elemset":
+            a = self.ref(t[1]); ci = self.comp
+            if ci is None or type(a) is not self.cls:
+                return "err unsupported:elemset"
+            e = a[int(t[2])]
+            setattr(e, ci["names"][int(t[3])], ci["cenc"](int(t[4])))
+            return "ok"
         if op == "allocc":
             ci = self.comp
             if ci is None:
@@ -475,7 +496,12 @@ class RealExec:
         cls = im.WstringArray if wide else im.StringArray
         key = "saw" if wide else "sa"
         arrs = self.sas.setdefault(key, [])
-        dump = lambda: " ".join(("w" if getattr(a, "writable", lambda: True)() else "r") + "[" + ",".join(a[i] for i in range(len(a))) + "]" for a in arrs)
+        def elem(a, i):
+            try:
+                return a[i]
+            except Exception as e:       # e.g. "String table access out of bounds": an index that is not in the array's own table
+                return "EXC(%s)" % type(e).__name__
+        dump = lambda: " ".join(("w" if getattr(a, "writable", lambda: True)() else "r") + "[" + ",".join(elem(a, i) for i in range(len(a))) + "]" for a in arrs)
 
         def ref(s):
             i = int(s)
@@ -779,6 +805,19 @@ class SpecExec:
         self.alias = False
         if op in ("alloc", "alloci", "allocc"):
             return self.new(SV(p_vals(t[1])))
+        if op == "allocfill":
+            return self.new(SV([int(t[1])] * int(t[2])))
+        if op == "elemset":
+            v = self.ref(t[1])
+            if not isinstance(v, SW):
+                raise SpecErr("unsupported")
+            try:
+                p = v.positions()[range(len(v))[int(t[2])]]
+            except IndexError:
+                raise SpecErr("indexError", "IndexError")
+            if v.writable:                 # the element of a read-only array is a copy
+                v.cols[int(t[3])][p] = int(t[4])
+            return "ok"
         if op == "allocw":
             w, cells = int(t[1]), p_vals(t[2])
             return self.new(SW([cells[k::w] for k in range(w)]))
@@ -1380,7 +1419,8 @@ def main():
                 ci = None
             res[n] = {"codec": cd is not None, "generic": generic, "iadd": hasattr(c, "__iadd__"),
                       "convert": ct[0].__name__ if ct else None,
-                      "comp": None if ci is None else {"w": ci["w"], "names": list(ci["names"]), "ccls": ci["ccls"]}}
+                      "comp": None if ci is None else {"w": ci["w"], "names": list(ci["names"]), "ccls": ci["ccls"],
+                                                       "elemset": elem_attr_writable(imath, n, ci)}}
         json.dump(res, sys.stdout)
     else:
         serve(RealExec(a.cls), sys.stdin, sys.stdout, a.flush)
